@@ -60,7 +60,9 @@ def file_cases(tier, seed):
     # version histories
     steps_pool = [["open"], ["append", 1], ["append", 70000], ["touch", 1000000005, 0], ["touch", 1000000000, 1],
                   ["touch", 1000000000, 999999999], ["rewrite"], ["replace"], ["touch", -1, 500000000], ["touch", 0, 500000000],
-                  ["touch", -2, 500000000]]
+                  ["touch", -2, 500000000],
+                  # the same instant 2^32 and 2^33 seconds later (whole and with the nanoseconds of the start)
+                  ["touch", 1000000000 + 2 ** 32, 0], ["touch", 1000000000 + 2 ** 32, 123456789], ["touch", 1000000000 + 2 ** 33, 0]]
     for n in (1, 2, 3):
         combos = list(itertools.product(steps_pool, repeat=n))
         if not T and len(combos) > 150:
